@@ -7,7 +7,7 @@ import Y0.Lemmas.IdSoundB
 namespace Y0
 open IdDsl IdAux MG
 
-theorem anc_closed {G : MG Name} (hG : G.WF) {S A : List Name} (h : G.ancestorsInclusive S = .ok A) {a r : Name}
+theorem IdAux.anc_closed {G : MG Name} (hG : G.WF) {S A : List Name} (h : G.ancestorsInclusive S = .ok A) {a r : Name}
     (ha : a ∈ A) (hra : G.DiEdge r a) : r ∈ A := by
   obtain ⟨s, hs, has⟩ := (ancestorsInclusive_spec G hG S A h a).mp ha
   exact (ancestorsInclusive_spec G hG S A h r).mpr ⟨s, hs, .head hra has⟩
@@ -24,7 +24,7 @@ theorem isObsMarginal_sumSafe {e : Expr} {r : List Name} (h : isObsMarginal (sum
 section
 variable {M : Scm} {G0 : MG Name} {σ' : Val} {I : IdIn}
 
-theorem doProb_eq (M : Scm) (G : MG Name) (X Y : List Name) (σ : Val) :
+theorem IdAux.doProb_eq (M : Scm) (G : MG Name) (X Y : List Name) (σ : Val) :
     M.doProb G X Y σ =
       sumVars M.card (G.nodes.filter (fun v => v ∉ X ∧ v ∉ Y)) (M.Q (G.nodes.filter (· ∉ X))) σ := rfl
 
